@@ -15,6 +15,7 @@ import (
 	"fmt"
 	"os"
 	"strconv"
+	"strings"
 
 	"github.com/oasisprotocol/curve25519-voi/curve"
 	"github.com/oasisprotocol/curve25519-voi/curve/scalar"
@@ -84,14 +85,32 @@ func sc(i int) *scalar.Scalar {
 	return s
 }
 
+// lean is set for the core32 window list: fixtures and warm-ups that only the excluded windows need are skipped (on the
+// 32-bit platform binary they would be most of the trace).
+var lean bool
+
 func main() {
 	tier := "thorough"
 	if len(os.Args) > 2 {
 		tier = os.Args[2]
 	}
+	lean = tier == "core32"
 	sel := func(all []window) []window {
 		if tier == "large" {
 			return largeWindows()
+		}
+		if tier == "core32" {
+			// the windows traced on the 32-bit platform binary (GOARCH=386: 3-5x more instructions per operation and a
+			// slower 32-bit valgrind): every primitive a secret flows through - selects, swaps, lookups, field and scalar
+			// arithmetic, encodings, comparisons - plus one fixed-base and one variable-base multiplication and one ladder;
+			// the long protocol-level windows are compositions of these and stay on amd64
+			var out []window
+			for _, w := range all {
+				if !heavyDuplicate[w.name] && !heavy32[w.name] && !strings.HasPrefix(w.name, "history: ") {
+					out = append(out, w)
+				}
+			}
+			return out
 		}
 		if tier != "quick" {
 			return all
@@ -129,15 +148,25 @@ func main() {
 	fmt.Fprintln(os.Stdout, "done", len(ws), sink)
 }
 
+// heavy32: quick-tier windows that are not traced on the 32-bit platform binary (see core32 above).
+var heavy32 = map[string]bool{
+	"ed25519.Sign(pure)": true, "ed25519.PrivateKey.Sign(added randomness)": true,
+	"x25519.ScalarMult": true, "x25519.ScalarBaseMult": true,
+	"EdwardsPoint.MulBasepoint(package table)": true, "EdwardsPoint.MultiscalarMul(n=3)": true,
+	"sr25519.MiniSecretKey.ExpandUniform": true, "sr25519.MiniSecretKey.ExpandEd25519": true,
+	"sr25519.SecretKey.PublicKey": true, "sr25519.KeyPair.Sign": true, "ecvrf.Prove": true,
+	"sr25519.SecretKey.MarshalBinary": true,
+}
+
 // heavyDuplicate: windows left to the thorough tier because a cheaper window of the quick tier drives the
 // same library routine (wrappers, second/third variants of one algorithm).
 var heavyDuplicate = map[string]bool{
 	"ecvrf.Prove_v10": true, "ecvrf.ProveWithAddedRandomness": true,
-	"x25519.X25519": true,
+	"x25519.X25519":                    true,
 	"EdwardsPoint.MultiscalarMul(n=1)": true, "EdwardsPoint.MultiscalarMul(n=2)": true,
 	"RistrettoPoint.MultiscalarMul(n=2)": true, "RistrettoPoint.Mul": true,
 	"EdwardsPoint.Mul(secret P, secret s)": true,
-	"ed25519.PrivateKey.Sign(ctx)": true, "ed25519.PrivateKey.Sign(ph)": true,
+	"ed25519.PrivateKey.Sign(ctx)":         true, "ed25519.PrivateKey.Sign(ph)": true,
 	"sr25519.SecretKey.KeyPair": true, "x25519.X25519(Basepoint)": true,
 	"history: Sign(zero key) ; Sign(secret key)": true, "history: sr25519 ExpandUniform+Sign(zero) ; (secret)": true,
 	"RistrettoPoint.MulBasepoint(custom table)": true, "RistrettoPoint.MulBasepoint(package table)": true,
@@ -153,12 +182,14 @@ func buildWindows(sigma int) []window {
 		seedW := make([]byte, 32)
 		seedW[0] = 9
 		skW := ed25519.NewKeyFromSeed(seedW)
-		_ = ed25519.Sign(skW, msg)
-		_ = ecvrf.Prove(skW, msg)
-		var mskW sr25519.MiniSecretKey
-		kpW := mskW.ExpandUniform().KeyPair()
-		_, _ = kpW.Sign(&blobReader{}, sr25519.NewSigningContext([]byte("w")).NewTranscriptBytes(msg))
-		_, _ = x25519.X25519(seedW, x25519.Basepoint)
+		if !lean {
+			_ = ed25519.Sign(skW, msg)
+			_ = ecvrf.Prove(skW, msg)
+			var mskW sr25519.MiniSecretKey
+			kpW := mskW.ExpandUniform().KeyPair()
+			_, _ = kpW.Sign(&blobReader{}, sr25519.NewSigningContext([]byte("w")).NewTranscriptBytes(msg))
+			_, _ = x25519.X25519(seedW, x25519.Basepoint)
+		}
 	}
 
 	// secret-derived objects prepared OUTSIDE the windows (by constant-time library routines)
@@ -171,7 +202,10 @@ func buildWindows(sigma int) []window {
 		k, _ := scalar.NewFromBits([]byte{7, 1, 2, 3, 4, 5, 6, 7, 8, 9, 10, 11, 12, 13, 14, 15, 16, 17, 18, 19, 20, 21, 22, 23, 24, 25, 26, 27, 28, 29, 30, 31})
 		pubP.MulBasepoint(curve.ED25519_BASEPOINT_TABLE, k)
 	}
-	pubTable := curve.NewEdwardsBasepointTable(pubP)
+	var pubTable *curve.EdwardsBasepointTable
+	if !lean {
+		pubTable = curve.NewEdwardsBasepointTable(pubP)
+	}
 	secP1, secP2, secP3 := new(curve.EdwardsPoint), new(curve.EdwardsPoint), new(curve.EdwardsPoint)
 	secP1.MulBasepoint(curve.ED25519_BASEPOINT_TABLE, sc(5))
 	secP2.MulBasepoint(curve.ED25519_BASEPOINT_TABLE, sc(6))
@@ -179,7 +213,10 @@ func buildWindows(sigma int) []window {
 	pubR := curve.VerifRistrettoFromEdwards(new(curve.EdwardsPoint).Add(pubP, pubP))
 	secR1 := curve.VerifRistrettoFromEdwards(new(curve.EdwardsPoint).Add(secP1, secP1))
 	secR2 := curve.VerifRistrettoFromEdwards(new(curve.EdwardsPoint).Add(secP2, secP2))
-	pubRTable := curve.NewRistrettoBasepointTable(pubR)
+	var pubRTable *curve.RistrettoBasepointTable
+	if !lean {
+		pubRTable = curve.NewRistrettoBasepointTable(pubR)
+	}
 	var pubU curve.MontgomeryPoint
 	pubU.SetEdwards(pubP)
 	tables := curve.VerifNewLookupTables(pubP)
@@ -187,15 +224,22 @@ func buildWindows(sigma int) []window {
 	choice := int(blob[8][0] & 1)
 	var msk sr25519.MiniSecretKey
 	copy(msk[:], blob[9][:32])
-	ssk := msk.ExpandUniform()
-	kp := ssk.KeyPair()
+	var ssk *sr25519.SecretKey
+	var kp *sr25519.KeyPair
+	if !lean {
+		ssk = msk.ExpandUniform()
+		kp = ssk.KeyPair()
+	}
 	sctx := sr25519.NewSigningContext([]byte("public context"))
 	f1, f2, f3 := fe(10), fe(11), fe(12)
 	var xsk, xu, xout [32]byte
 	copy(xsk[:], blob[13][:32])
 	copy(xu[:], []byte{9, 0, 0, 0, 0, 77, 3, 1, 200, 9, 9, 9, 1, 2, 3, 4, 5, 6, 7, 8, 9, 8, 7, 6, 5, 4, 3, 2, 1, 0, 0, 0x11})
 	var zero32 [32]byte
-	skZero := ed25519.NewKeyFromSeed(zero32[:])
+	var skZero ed25519.PrivateKey
+	if !lean {
+		skZero = ed25519.NewKeyFromSeed(zero32[:])
+	}
 	var (
 		ep  curve.EdwardsPoint
 		rp  curve.RistrettoPoint
